@@ -65,7 +65,7 @@ func (e *sx) isField(fn *ssa.Function, idx int, fields ...string) bool {
 	if e == nil || e.op != "leaf" || idx >= len(fn.Params) {
 		return false
 	}
-	want := "param:" + fn.Params[idx].Name()
+	want := "param:" + pname(fn.Params[idx])
 	if len(fields) > 0 {
 		want += "." + strings.Join(fields, ".")
 	}
@@ -226,11 +226,67 @@ func inlineCall(call *ssa.Call, result int, env provEnv) *sx {
 
 // modLen: is e reduced modulo len(<something>.field)?  Accepts x % len(r.f) and positiveMod(x, len(r.f)) (any helper whose
 // second argument is that length and whose name says Mod).
-func (e *sx) modLen(field string) (*sx, bool) {
+func (e *sx) modLen(field string) (*sx, bool) { return e.modLenSign(field, true) }
+
+// nonNegShape: e cannot be negative by its shape alone: a non-negative constant, len/cap, a ring position (a leaf other than
+// the `back` end, which is -1 for an empty deque), sums of those, back + k for k >= 1, and (x - 1) + len(...) for such an x.
+func (e *sx) nonNegShape() bool {
+	if e == nil {
+		return false
+	}
+	switch e.op {
+	case "const":
+		if k, ok := e.v.(*ssa.Const); ok && k.Value != nil {
+			return k.Int64() >= 0
+		}
+		return false
+	case "len", "cap":
+		return true
+	case "leaf":
+		return !e.fieldSuffix("back") && e.s != "?"
+	case "+":
+		if len(e.args) != 2 {
+			return false
+		}
+		a, b := e.args[0], e.args[1]
+		if a.nonNegShape() && b.nonNegShape() {
+			return true
+		}
+		for _, pr := range [][2]*sx{{a, b}, {b, a}} {
+			// back + k, k >= 1
+			if pr[0].fieldSuffix("back") && pr[1].op == "const" {
+				if k, ok := pr[1].v.(*ssa.Const); ok && k.Value != nil && k.Int64() >= 1 {
+					return true
+				}
+			}
+			// (x - 1) + len(a)
+			if pr[0].op == "-" && len(pr[0].args) == 2 && pr[0].args[0].nonNegShape() && pr[0].args[1].isConst(1) && pr[1].op == "len" {
+				return true
+			}
+		}
+	case "*":
+		return len(e.args) == 2 && e.args[0].nonNegShape() && e.args[1].nonNegShape()
+	case "phi":
+		for _, a := range e.args {
+			if !a.nonNegShape() {
+				return false
+			}
+		}
+		return len(e.args) > 0
+	}
+	return false
+}
+
+// modLenSign: Go's % takes the sign of the dividend, so a plain `x % len(a)` is a reduction into [0, len) only for a dividend
+// that cannot be negative; the positive-modulo idiom (and a helper implementing it) repairs the sign itself.
+func (e *sx) modLenSign(field string, needNonNeg bool) (*sx, bool) {
 	if e == nil {
 		return nil, false
 	}
 	if e.op == "%" && len(e.args) == 2 && e.args[1].op == "len" && e.args[1].args[0].fieldSuffix(field) {
+		if needNonNeg && !e.args[0].nonNegShape() {
+			return nil, false
+		}
 		return e.args[0], true
 	}
 	if e.op == "phi" && len(e.args) > 0 {
@@ -241,7 +297,7 @@ func (e *sx) modLen(field string) (*sx, bool) {
 			if a.op == "+" && len(a.args) == 2 && a.args[1].op == "len" && a.args[1].args[0].fieldSuffix(field) {
 				cand = a.args[0]
 			}
-			x, ok := cand.modLen(field)
+			x, ok := cand.modLenSign(field, false)
 			if !ok || (inner != nil && inner.String() != x.String()) {
 				return nil, false
 			}
